@@ -424,6 +424,13 @@ static CO_ERR COCSdoDownloadSegmented(CO_CSDO *csdo)
 
 static CO_ERR COCSdoFinishDownloadSegmented(CO_CSDO *csdo)
 {
+    uint8_t cmd;
+
+    /* the confirmation of the last segment carries its toggle bit */
+    cmd = CO_GET_BYTE(csdo->Frm, 0u);
+    if (((cmd >> 4u) & 0x01u) != csdo->Tfer.TBit) {
+        COCSdoAbort(csdo, CO_SDO_ERR_TBIT);
+    }
     COCSdoTransferFinalize(csdo);
     return CO_ERR_SDO_SILENT;
 }
